@@ -1130,6 +1130,26 @@ def reject_ends_open(ctx):
             continue
         settles = [x for x in calls_in(m) if dotted(x.func) in ('self.connection_result.set_exception', 'self.connection_result.cancel')]
         R.check(bool(settles), rule, f'{LE}.{c.func.attr} | fails the pending connect', 'connection_result is failed', f'{c.func.attr} does not fail the pending connection_result', p.loc(m))
+    # the same for the enhanced request: every table of pending requests keyed by identifier is consulted.  The tables are
+    # taken from the class: whatever the response handlers of connection requests pop by `response.identifier`
+    cm = p.cls(CM)
+    tables = set()
+    for name, m in (cm.methods.items() if cm is not None else []):
+        if name.startswith('on_l2cap_') and name.endswith('connection_response'):
+            for c in calls_in(m):
+                if call_attr(c) == 'pop' and c.args and 'identifier' in norm(c.args[0]):
+                    base = dotted(c.func.value) or ''
+                    for st in walk_local(m):  # a local alias of a per-connection sub-table
+                        if isinstance(st, ast.Assign) and dotted(st.targets[0]) == base:
+                            base = next((dotted(x.func.value) for x in ast.walk(st.value) if isinstance(x, ast.Call) and call_attr(x) in ('setdefault', 'get') and (dotted(x.func.value) or '').startswith('self.')), base)
+                    if base.startswith('self.'):
+                        tables.add(base)
+    src = norm(fn)
+    R.check(len(tables) >= 2, rule, f'{CM} | pending-request tables', f'{sorted(tables)}', f'only {sorted(tables)} found (anchor)', p.loc(fn))
+    for t in sorted(tables):
+        R.check(t in src, rule, f'{CM}.on_l2cap_command_reject | {t}', 'consulted', f'a Command Reject does not look the request up in {t}: an open of that kind that the peer rejects (it does not implement the request) is never failed, its caller waits for ever', p.loc(fn))
+    waits = [c for c in calls_in(fn) if call_attr(c) in ('set_exception', 'cancel')]
+    R.check(bool(waits), rule, f'{CM}.on_l2cap_command_reject | enhanced request', 'the pending future is failed', 'the pending future of a rejected enhanced request is not failed', p.loc(fn))
 
 
 def disconnect_request_answered(ctx):
